@@ -17,6 +17,12 @@ impl Invert {
 
 impl Pattern for Invert {
     fn matches(&self, tokens: &[Token], source: &[char]) -> usize {
+        // "Anything but X" still needs a token to consume: at the end of the clause there is
+        // none, and claiming one would send callers past the end of the token slice.
+        if tokens.is_empty() {
+            return 0;
+        }
+
         if self.inner.matches(tokens, source) != 0 {
             0
         } else {
